@@ -22,13 +22,21 @@ use thiserror::Error;
 #[cfg(any(feature = "client", test))]
 use tokio::io::{AsyncRead, AsyncWrite};
 
-#[cfg(all(feature = "tls-rustls", feature = "server"))]
+#[cfg(all(feature = "tls-rustls", feature = "server", not(penguin_rs_verif)))]
 pub use self::rustls::{HyperConnector, make_hyper_connector};
 #[expect(clippy::module_name_repetitions)]
 #[cfg(feature = "tls-rustls")]
 pub use self::rustls::{TlsIdentityInner, make_client_config, make_server_config};
-#[cfg(all(feature = "tls-native", feature = "server"))]
+#[cfg(all(feature = "tls-native", feature = "server", not(penguin_rs_verif)))]
 pub use native::{HyperConnector, make_hyper_connector};
+/// Verification hook: backend requests go over the simulated network.
+#[cfg(all(feature = "server", penguin_rs_verif))]
+pub use penguin_simnet::HyperConnector;
+/// Verification hook: backend requests go over the simulated network.
+#[cfg(all(feature = "server", penguin_rs_verif))]
+pub async fn make_hyper_connector() -> Result<HyperConnector, Error> {
+    Ok(HyperConnector)
+}
 #[cfg(feature = "tls-native")]
 pub use native::{TlsIdentityInner, make_client_config, make_server_config};
 
